@@ -122,6 +122,38 @@ Theorem C17_stdlib_order_free :
     /\ forall x s, In (x, s) (env def string def_names out1) <-> In (x, s) (env def string def_names out2).
 Proof. exact (stdlib_order_free stdlib). Qed.
 
+(* ---- closedness (phase 2) ---- *)
+(* General: if every module of the table is closed (each statement needs only its
+   own earlier statements and modules reachable from its own earlier `use`s) then in
+   ANY successful import into a closed state, every inlined statement is
+   well-scoped in the environment made of the whole output plus the previously
+   imported modules — nothing it refers to is missing, whatever the import order.
+   `ok` is any monotone scoping predicate. *)
+Theorem C17_defs_available :
+  forall (M : Type) (M_eqb : M -> M -> bool), (forall a b, M_eqb a b = true <-> a = b) ->
+  forall (Code S : Type) (importer : M -> option Code) (parse : Code -> option (list (stmt M S)))
+         (ok : (S -> Prop) -> S -> Prop),
+    (forall (E E' : S -> Prop) s, (forall x, E x -> E' x) -> ok E s -> ok E' s) ->
+    closed_table M Code S importer parse ok ->
+    forall fuel r p r' out,
+      closed_except M Code S importer parse [] r -> NoDup (imported M Code r) ->
+      inlining_pass M M_eqb Code S importer parse fuel r p = (r', ROk out) ->
+      closed_prog M Code S importer parse ok (imported M Code r) p ->
+      forall s, In s out ->
+        ok (fun x => In x out \/ exists m, In m (imported M Code r) /\ In x (own_of M Code S importer parse m)) s.
+Proof. exact defs_available. Qed.
+
+(* the real graph: whatever modules are imported into a fresh session, in whatever
+   order, every identifier used by an inlined definition (as extracted by the
+   translator) is a name of that definition or of some definition of the session *)
+Theorem C17_stdlib_defs_available :
+  forall ms r1 out,
+    import_seq stdlib ms = (r1, ROk out) ->
+    forall d, In d out -> ok_str (fun x => In x out) d.
+Proof. exact (table_defs_available stdlib C17_table_closed). Qed.
+
+Print Assumptions C17_defs_available.
+Print Assumptions C17_stdlib_defs_available.
 Print Assumptions C17_once.
 Print Assumptions C17_reimport_noop.
 Print Assumptions C17_closure.
